@@ -273,6 +273,7 @@ class Session:
             elif c['state'] == 'cancelled':
                 # recorded finding: a blocking wait on a cancelled call completes and NOTIFIES it when its timeout expires
                 has_reply = any(q[0] == i for q in self.queued)
+                reply_kind = next((q[1] for q in self.queued if q[0] == i), None)
                 self.process_queue()
                 resp = self.h.cmd('BLOCK %d' % i)
                 if not resp.startswith('HANG'):
@@ -283,7 +284,8 @@ class Session:
                     for v in vs:
                         v.resynced = True
                     c['state'] = 'done'
-                    c['outcome'] = ('timeout', None) if self.connected else ('disconnect', None)
+                    # (what the implementation then holds: the queued reply if there was one, else the local error)
+                    c['outcome'] = ('reply', reply_kind) if has_reply else (('timeout', None) if self.connected else ('disconnect', None))
                     if self.connected and not has_reply:
                         self.time = self.time + c['timeout']
                     self.hit('resynced-after-known-finding')
